@@ -49,6 +49,9 @@ ASSUMPTIONS = [
     "a signal-state object without any slot (SignalState()) carries no information: as initial_signal_state it reads back as None, "
     "inside a signal series as the None the reader appends (shown as the all-unset signal state)",
     "a state's populated attributes form a map; snapshots list it in protobuf descriptor order (St.wf): the order is not content",
+    "exact orientations of states are arbitrary doubles (State does not normalise them): unwrapped yaw angles beyond +-2 pi are "
+    "generated and must come back bit-identical; Rectangle.orientation is validated to [-2 pi, 2 pi] by its setter, so shapes get "
+    "the range ends only; a Polygon-shaped obstacle with an unwrapped initial orientation is refused by the constructor (excluded)",
     "time steps are Python `int` (numpy integers are refused by Trajectory's own assertion and by the writer's isinstance(.., int)); "
     "reals may be float, int or numpy.float64; lanelet ids may be numpy.int64",
     "read route open(lanelet_assignment=True) is compared only when every obstacle state is exact with position and orientation; if "
@@ -68,6 +71,8 @@ REQUIRED_BUCKETS = ["sign:virtual-true", "sign:first-occurrence", "light:offset"
                     "lanelet:stop-line", "goal:lanelets-partial", "init:unset-middle-attr", "location:default",
                     "location:env-time-date", "header:via-writer", "phantom", "env-obstacle", "state:no-position",
                     "real:subnormal-or-huge", "reader-defaults", "writer-error:value", "writer-error:attr", "roundtrip-ok",
+                    "real:unwrapped-exact-orientation", "real:unwrapped-exact-orientation:init",
+                    "real:unwrapped-exact-orientation:traj",
                     "canonical-original", "signal:empty-object", "outside:initial-extra-attribute",
                     "history:write_scenario_to_file-after-write_to_file", "history:write_scenario_to_file-after-nothing",
                     "history:write_scenario_to_file-after-write_scenario_to_file", "history:write_to_file-after-write_to_file",
@@ -458,6 +463,10 @@ def tag_spec(ctx, sp):
     for where, st in _walk_states(sp):
         if any(isinstance(v, list) for v in st["a"].values()):
             t("state:interval-attr")
+        o_ = st["a"].get("orientation")
+        if isinstance(o_, (int, float)) and abs(o_) > 2 * 3.141592653589793:
+            t("real:unwrapped-exact-orientation")
+            t(f"real:unwrapped-exact-orientation:{where}")
         if isinstance(st.get("pos"), dict):
             t("state:region-position")
         if st.get("pos") is None and where == "traj":
